@@ -13,11 +13,11 @@ Every theorem quantifies over ALL descriptors (any number of instances, tokens, 
 heartbeats, token-less instances), all keys, every operation mask (hence the four built-in ones),
 every replication factor ≥ 1, zone-awareness on and off.
 
-FINDING (proved below, reproduced on the real code by the correspondence run): the ring does not always
-walk the sorted token list. `Desc.GetTokens` merges the per-instance token lists with
-`loser.New(lists, math.MaxUint32)`, whose sentinel equals the largest legal token; an instance whose only
-token is 2^32-1 loses it when a token-less instance follows it in Go's map iteration order. Theorems
-about `Get` therefore carry the guard `getTokens order = sortedTokens d` and are named `…_partial`.
+The token circle the ring walks is `Desc.GetTokens()` = `loser.New(lists, math.MaxUint32)` drained, with
+the lists in Go's map iteration order. `merge_tokens_sorted` proves the loser tree (fixed `playGame`,
+/repo a6b17a3) correct for every order and for values equal to the sentinel 2^32-1, so the theorems
+about `Get` hold for EVERY `getTokens order`, `order` any permutation of the descriptor. The only
+hypotheses are the C05 well-formedness (`WFRing`), tokens being uint32 values (`TokensU32`) and RF ≥ 1.
 -/
 namespace PC01
 open Common Ring C01
@@ -87,32 +87,38 @@ theorem filter_exact (cfg : Cfg) (op : Op) (now : Int) (rf : Nat) (l : List Inst
                   maxErrors := (l.filter (isHealthy op cfg.hbTimeout now)).length - majority rf l.length }) :=
   PfC01.filter_exact cfg op now rf l
 
+/-! ### The token circle -/
+
+/-- `ring.MergeTokens` (loser tree) is the sorted merge: for lists that are each sorted with values
+≤ 2^32-1 — values equal to the sentinel, empty lists and every order of the lists included — the result
+is the ascending list of all elements (sorted, and a permutation of the concatenation). -/
+theorem merge_tokens_sorted (lists : List (List Nat)) (hs : ∀ l ∈ lists, l.Pairwise (· ≤ ·))
+    (hM : ∀ l ∈ lists, ∀ x ∈ l, x ≤ maxToken) :
+    loserMerge lists = sortNat lists.flatten ∧
+    (loserMerge lists).Pairwise (· ≤ ·) ∧ (loserMerge lists).Perm lists.flatten := by
+  have h := PfC01.loserMerge_spec lists hs hM
+  exact ⟨h, h ▸ PfC01.sortNat_sorted _, h ▸ PfC01.sortNat_perm _⟩
+
+/-- `Desc.GetTokens()` is the ascending list of all registered tokens, for every map iteration order. -/
+theorem getTokens_sorted (d order : Desc) (hperm : order.Perm d) (hu : TokensU32 d) :
+    getTokens order = sortedTokens d :=
+  PfC01.getTokens_eq_sorted d order hperm hu
+
 /-! ### The lookup -/
 
-/-
-FULL STATEMENT (false on the current code, see `get_eq_spec_fails_on_max_token`):
-
-theorem get_eq_spec (cfg d order key op now) (hwf : WFRing d) (hrf : 1 ≤ cfg.rf) (hperm : order.Perm d) :
-    ((specGet cfg op d key now).ok = true → get cfg d (getTokens order) key op now = .ok ⟨spec.instances, spec.maxErrors⟩) ∧
-    ((specGet cfg op d key now).ok = false → get … = .error .emptyRing ∨ get … = .error .tooManyUnhealthy)
-
-Proved part: the same statement under the exact guard that the loser-tree merge returned the sorted
-union of the instance token lists (`getTokens order = sortedTokens d`).
--/
-
-/-- `Ring.Get` = the specification: it fails precisely when fewer than a majority of the walked set
-(or of the replication factor, if larger) is healthy, otherwise returns exactly the healthy members of
-the walked set and tolerates exactly healthy − majority errors. Guard: the token circle built by
-`GetTokens` under the realised map order is the sorted token list. -/
-theorem get_eq_spec_partial (cfg : Cfg) (d order : Desc) (key : Nat) (op : Op) (now : Int) (hwf : WFRing d)
-    (hrf : 1 ≤ cfg.rf) (hmerge : getTokens order = sortedTokens d) :
+/-- `Ring.Get` = the specification, for every ring content, key, operation and map iteration order: it
+fails precisely when fewer than a majority of the walked set (or of the replication factor, if larger)
+is healthy — with `ErrEmptyRing` or the quorum error, never an internal inconsistency — and otherwise
+returns exactly the healthy members of the walked set and tolerates exactly healthy − majority errors. -/
+theorem get_eq_spec (cfg : Cfg) (d order : Desc) (key : Nat) (op : Op) (now : Int) (hwf : WFRing d)
+    (hu : TokensU32 d) (hrf : 1 ≤ cfg.rf) (hperm : order.Perm d) :
     ((specGet cfg op d key now).ok = true →
       get cfg d (getTokens order) key op now
         = .ok { instances := (specGet cfg op d key now).instances, maxErrors := (specGet cfg op d key now).maxErrors }) ∧
     ((specGet cfg op d key now).ok = false →
       get cfg d (getTokens order) key op now = .error .emptyRing ∨
       get cfg d (getTokens order) key op now = .error .tooManyUnhealthy) :=
-  PfC01.get_eq_spec_guarded cfg d order key op now hwf hrf hmerge
+  PfC01.get_eq_spec_full cfg d order key op now hwf hu hrf hperm
 
 /-- The same with the circle given directly as the sorted token list. -/
 theorem get_eq_spec_sorted (cfg : Cfg) (d : Desc) (key : Nat) (op : Op) (now : Int) (hwf : WFRing d) (hrf : 1 ≤ cfg.rf) :
@@ -133,29 +139,17 @@ theorem getWith_percall (cfg : Cfg) (d : Desc) (toks : List Nat) (key : Nat) (op
        else get cfg d toks key op now) :=
   PfC01.getWith_percall cfg d toks key op now rfCall
 
-/-! ### The finding: token 2^32-1 can vanish from the token circle -/
+/-! ### History: the pre-fix finding (fixed in /repo by a6b17a3) -/
 
-def witA : Inst := { id := "i0", tokens := [4294967295] }
-def witB : Inst := { id := "i1" }
-
-/-- `MergeTokens([[4294967295], []]) = []`: the exhausted list (value = sentinel `math.MaxUint32`) beats
-the live list whose head equals the sentinel in `initialize`/`playGame`. -/
-theorem loser_drops_max_token :
-    loserMerge [[4294967295], []] = [] ∧ loserMerge [[], [4294967295]] = [4294967295] ∧
-    loserMerge [[5, 9], [4294967295], []] = [5, 9] := by decide
-
-/-- The token circle of the well-formed ring `{i0: [2^32-1], i1: []}` depends on the map order. -/
-theorem getTokens_order_dependent :
-    WFRing [witA, witB] ∧ getTokens [witA, witB] = [] ∧ getTokens [witB, witA] = [4294967295] ∧
-    sortedTokens [witA, witB] = [4294967295] := by decide
-
-/-- Negation of the full `get_eq_spec`: on that ring (RF 1, Write, both instances ACTIVE and healthy)
-the specification returns `{i0}` with no error tolerance, the lookup fails with `ErrEmptyRing`. -/
-theorem get_eq_spec_fails_on_max_token :
-    WFRing [witA, witB] ∧ [witA, witB].Perm [witA, witB] ∧
-    specGet { rf := 1, zoneAware := false } opWrite [witA, witB] 0 0 = { ok := true, instances := [witA], maxErrors := 0 } ∧
-    get { rf := 1, zoneAware := false } [witA, witB] (getTokens [witA, witB]) 0 opWrite 0 = .error .emptyRing := by
-  refine ⟨by decide, List.Perm.refl _, by decide, by decide⟩
+/-
+Before a6b17a3 `loser.playGame` was `if a.value < b.value`, and the following were THEOREMS about the
+model of that code (proved by `decide`, reproduced on the real code by the correspondence run):
+  loser_drops_max_token          : loserMerge [[4294967295], []] = [] ∧ loserMerge [[], [4294967295]] = [4294967295]
+                                   ∧ loserMerge [[5, 9], [4294967295], []] = [5, 9]
+  getTokens_order_dependent      : the token circle of the well-formed ring {i0: [2^32-1], i1: []} depended on map order
+  get_eq_spec_fails_on_max_token : on that ring (RF 1, Write) specGet = {i0}, Get = ErrEmptyRing
+They are false for the fixed model (`merge_tokens_sorted`; see also the examples at the end of this file).
+-/
 
 /-! ### "Consequently": locality of membership changes -/
 
@@ -167,27 +161,24 @@ theorem walked_local_remove (cfg : Cfg) (op : Op) (d : Desc) (key : Nat) (now : 
     specGet cfg op (d.filter (PfC01.keepNot xid)) key now = specGet cfg op d key now :=
   ⟨PfC01.specWalked_remove cfg op d key xid hx, PfC01.specGet_remove cfg op d key now xid hx⟩
 
-/-
-FULL STATEMENTS: as below with `getTokens order` / `getTokens order'` (any map orders of the two
-descriptors) instead of the sorted token lists. False for the same reason as `get_eq_spec`.
--/
-
-/-- Removing an instance changes the lookup only of keys for which it was a replica (zone-awareness on
-or off). Guard: both token circles are the sorted token lists. -/
-theorem lookup_local_remove_partial (cfg : Cfg) (d : Desc) (key : Nat) (op : Op) (now : Int) (xid : String)
-    (hwf : WFRing d) (hrf : 1 ≤ cfg.rf) (hx : ∀ y ∈ specWalked cfg op d key, y.id ≠ xid) :
-    (get cfg (d.filter (PfC01.keepNot xid)) (sortedTokens (d.filter (PfC01.keepNot xid))) key op now).toOption
-      = (get cfg d (sortedTokens d) key op now).toOption :=
-  PfC01.lookup_local_remove cfg d key op now xid hwf hrf hx
+/-- Removing an instance changes the lookup only of keys for which it was a replica — zone-awareness on or
+off, for every map iteration order of the ring before and after. -/
+theorem lookup_local_remove (cfg : Cfg) (d order order' : Desc) (key : Nat) (op : Op) (now : Int) (xid : String)
+    (hwf : WFRing d) (hu : TokensU32 d) (hrf : 1 ≤ cfg.rf) (hperm : order.Perm d)
+    (hperm' : order'.Perm (d.filter (PfC01.keepNot xid))) (hx : ∀ y ∈ specWalked cfg op d key, y.id ≠ xid) :
+    (get cfg (d.filter (PfC01.keepNot xid)) (getTokens order') key op now).toOption
+      = (get cfg d (getTokens order) key op now).toOption :=
+  PfC01.lookup_local_remove_full cfg d order order' key op now xid hwf hu hrf hperm hperm' hx
 
 /-- Registering an instance (at any position of the descriptor) changes the lookup only of keys for
-which it becomes a replica. Same guard. -/
-theorem lookup_local_add_partial (cfg : Cfg) (d₁ d₂ : Desc) (x : Inst) (key : Nat) (op : Op) (now : Int)
-    (hwf : WFRing (d₁ ++ x :: d₂)) (hrf : 1 ≤ cfg.rf)
+which it becomes a replica. -/
+theorem lookup_local_add (cfg : Cfg) (d₁ d₂ order order' : Desc) (x : Inst) (key : Nat) (op : Op) (now : Int)
+    (hwf : WFRing (d₁ ++ x :: d₂)) (hu : TokensU32 (d₁ ++ x :: d₂)) (hrf : 1 ≤ cfg.rf)
+    (hperm : order.Perm (d₁ ++ x :: d₂)) (hperm' : order'.Perm (d₁ ++ d₂))
     (hx : ∀ y ∈ specWalked cfg op (d₁ ++ x :: d₂) key, y.id ≠ x.id) :
-    (get cfg (d₁ ++ x :: d₂) (sortedTokens (d₁ ++ x :: d₂)) key op now).toOption
-      = (get cfg (d₁ ++ d₂) (sortedTokens (d₁ ++ d₂)) key op now).toOption :=
-  PfC01.lookup_local_add cfg d₁ d₂ x key op now hwf hrf hx
+    (get cfg (d₁ ++ x :: d₂) (getTokens order) key op now).toOption
+      = (get cfg (d₁ ++ d₂) (getTokens order') key op now).toOption :=
+  PfC01.lookup_local_add_full cfg d₁ d₂ order order' x key op now hwf hu hrf hperm hperm' hx
 
 /-! ### Non-vacuity -/
 
@@ -199,9 +190,15 @@ def ring4 : Desc :=
     { id := "d", tokens := [40, 4294967295], zone := "z1" } ]
 def cfg2 : Cfg := { rf := 2, zoneAware := true }
 
-example : WFRing ring4 := by decide
+example : WFRing ring4 ∧ TokensU32 ring4 ∧ ring4.reverse.Perm ring4 := ⟨by decide, by decide, List.reverse_perm _⟩
 example : (sortedTokens ring4).Pairwise (· < ·) := by decide
-example : getTokens ring4 = sortedTokens ring4 := by decide          -- the guard is satisfiable
+example : getTokens ring4.reverse = sortedTokens ring4 := by decide
+-- the pre-fix witness ring {i0: [2^32-1], i1: []} is well formed and now looked up correctly in both map orders
+example : WFRing [{ id := "i0", tokens := [4294967295] }, { id := "i1" }] ∧ TokensU32 [{ id := "i0", tokens := [4294967295] }, { id := "i1" }] := ⟨by decide, by decide⟩
+example : getTokens [{ id := "i0", tokens := [4294967295] }, { id := "i1" }] = [4294967295] ∧
+    getTokens [{ id := "i1" }, { id := "i0", tokens := [4294967295] }] = [4294967295] := by decide
+-- the pre-fix witnesses now merge correctly
+example : loserMerge [[4294967295], []] = [4294967295] ∧ loserMerge [[5, 9], [4294967295], []] = [5, 9, 4294967295] := by decide
 example : (specWalked cfg2 opWrite ring4 5).map (·.id) = ["a", "b", "c"] := by decide   -- extended by JOINING b
 example : (get cfg2 ring4 (getTokens ring4) 5 opWrite 0).toOption.map (fun r => (r.instances.map (·.id), r.maxErrors))
     = some (["a", "c"], 0) := by decide
